@@ -13,6 +13,7 @@ def run(res, tier):
     res.rule("CMUX-1", "cmux / cmux_assign / cmux_assign_neg: the operand added after the product is the subtrahend of the difference that was multiplied")
     res.rule("WR-4", "raw-slice vmp kernels taking limb_offset: the zero fill starts one stride after the last written limb")
     res.rule("ROW-1", "row accessors X.at(row, ..) / X.at_mut(row, ..) in a row loop: the loop bound stays within X.dnum() under the comparisons that dominate the access")
+    res.rule("UNIT-1", "comparisons, min and max between limb counts, key row counts and bit precisions (limbs = rows * dsize, bits = limbs * base2k) relate quantities of the same unit")
     res.rule("RAD-1", "a cross-radix conversion skipped / taken on a radix comparison is guarded by the comparison of exactly its input and output radices")
     res.rule("RAD-2", "no call of an operation asserting equal radices of two arguments sits on a branch whose guards imply that they differ (cswap / cmux cross-radix branches)")
     res.assumptions = ["the external product multiplies by the GGSW plaintext (not decided)", "zeroed accumulators of multi-digit products: SC-3 under C12"]
@@ -35,4 +36,6 @@ def run(res, tier):
         res.floor("RAD-2", "calls of radix-asserting operations", nr2, 12)
         nrow = rad.row1(p, res, ("poulpy_core::external_product", "poulpy_core::api::external_product", "poulpy_bin_fhe::bdd_arithmetic"))
         res.floor("ROW-1", "row accessors in row loops", nrow, 17)
+        nu = rad.unit1(p, res, ("poulpy_core::external_product", "poulpy_core::api::external_product", "poulpy_bin_fhe::bdd_arithmetic"))
+        res.floor("UNIT-1", "comparisons / min / max between quantities of known units", nu, 9)
         res.fn_count += n + nc
